@@ -152,7 +152,7 @@ void callback_case(Ctx &c) { case_impl(c, true); }
 
 Registrar reg(Prop{
     "C20",
-    "Cases: a node with heartbeat producer, SYNC consumer/producer, two heartbeat consumer entries, two TPDOs (event/inhibit/sync types), an RPDO, an SDO client, LSS and EMCY (generated configuration); a history H of 0..60 (120) ops from 26 kinds (ticks, heartbeat/SYNC/RPDO/LSS/foreign frames, SDO write to the SDO client's server node id 1280h:3, SDO writes to 1017h/1005h/1006h/1016h/18xxh:1/18xxh:5, NMT start/stop, triggers, object writes, EMCY set/clear, SDO transfers left open in three protocol states, client requests left busy, an optional cyclic application timer), "
+    "Cases: a node with heartbeat producer, SYNC consumer/producer, two heartbeat consumer entries, two TPDOs (event/inhibit/sync types), an RPDO, an SDO client, LSS and EMCY (generated configuration); a history H of 0..60 (120) ops from 26 kinds (ticks, heartbeat/SYNC/RPDO/LSS (switch, inquire, identify non-configured slave, configure node id 1..100 or 255, store)/foreign frames, SDO write to the SDO client's server node id 1280h:3, SDO writes to 1017h/1005h/1006h/1016h/18xxh:1/18xxh:5, NMT start/stop, triggers, object writes, EMCY set/clear, SDO transfers left open in three protocol states, client requests left busy, an optional cyclic application timer), "
     "then NMT reset communication (or reset node; in mode reset-from-callback the application issues it with CONmtReset() from inside the heartbeat-consumer event callback when a monitored node falls silent), then a probe sequence P of 8..60 (90) ops of the same kinds (conforming traffic only). "
     "Oracle (metamorphic): node B is a fresh node whose object storage equals A's storage right after the reset; after init+start it executes the same P; per probe step the sorted list of transmitted frames (with ticks relative to reset/start) and application callbacks (mode changes, heartbeat events/changes, frames handed to the application, client completions, PDO callbacks) must be identical; timer-pool occupancy of A equals B's plus live application timers right after the reset and after P. "
     "Non-trivial: H changed at least one communication parameter or NMT state, or left a service non-idle (open SDO transfer, busy client, active emergency). Distinct = distinct decoded choice sequence.",
